@@ -412,6 +412,8 @@ pub fn gen_history(rng: &mut Rng, m: &Mix) -> Value {
                                     if x < m.w_read {
                                         st = match rng.below(3) {
                                             0 => json!({"k":"api","op":"read","key":ki}),
+                                            1 if rng.chance(1, 3) => json!({"k":"api","op":"reader","key":ki,"bufs":[*rng.pick(&[1u64, 7, 100, 5000]), *rng.pick(&[8192u64, 8193, 16384, 65536])],"eof_reads":rng.below(2)}),
+                                            1 if rng.chance(1, 4) => json!({"k":"api","op":"reader","key":ki,"bufs":[4096],"to_end":*rng.pick(&[0u64, 1, 40, 5000])}),
                                             1 => json!({"k":"api","op":"reader","key":ki,"bufs":[pick_buf(rng, maxlen)]}),
                                             _ => json!({"k":"api","op":"read","addr":{"val":vi,"algo":"sha256"}}),
                                         };
